@@ -82,7 +82,7 @@ pub fn outside_envelope(name: &str, st: &PushState) -> Option<String> {
         "EXEC.CMD" => {
             let harmless = match int_at(0) {
                 Some(n) if n >= 0 && (n as usize) < st.name_stack.size() => {
-                    st.name_stack.get(n as usize).map(|s| s == "true").unwrap_or(false)
+                    st.name_stack.get(n as usize).map(|s| s == "true" || (std::env::var("PV_CMD_NOTFOUND").is_ok() && cannot_start(s))).unwrap_or(false)
                 }
                 Some(_) => true, // not enough names or negative count: nothing is spawned
                 None => true,
@@ -94,6 +94,19 @@ pub fn outside_envelope(name: &str, st: &PushState) -> Option<String> {
         _ => {}
     }
     None
+}
+
+/// A command name that the operating system cannot start (so that EXEC.CMD has nothing to run): it holds a NUL
+/// byte, or it is a bare name that is in no directory of PATH. Only consulted when PV_CMD_NOTFOUND is set.
+pub fn cannot_start(cmd: &str) -> bool {
+    if cmd.contains('\0') {
+        return true;
+    }
+    if cmd.is_empty() || cmd.contains('/') {
+        return false;
+    }
+    let path = std::env::var("PATH").unwrap_or_default();
+    path.split(':').all(|d| !std::path::Path::new(d).join(cmd).exists())
 }
 
 pub fn total_points(st: &PushState) -> usize {
